@@ -261,6 +261,28 @@ def starmap_one_result_per_item(vals: List[int], arity2: bool) -> bool:
     return out == [v + 1 for v in vals]
 
 
+def forced_shutdown_drains_both_queues(n_tasks: int, n_results: int, size: int) -> bool:
+    """
+    pre: 0 <= n_tasks <= 3 and 0 <= n_results <= 3 and 2 <= size <= 3
+    post: _
+    """
+    # after an aborted fan-out (forced shutdown) nothing of it may stay behind: a result left in the queue would be taken
+    # for the result of the same index by the next fan-out on this pool
+    import queue as _q
+    p = ThreadPool(size=size)
+    p.task_queue = _q.Queue()
+    p.result_queue = _q.Queue()
+    for i in range(n_tasks):
+        p.task_queue.put((i, None, ()))
+    for i in range(n_results):
+        p.result_queue.put((i, i))
+    p.shutdown(force=True)
+    left = []
+    while not p.task_queue.empty():
+        left.append(p.task_queue.get(block=False))
+    return p.result_queue.empty() and left == [None] * size
+
+
 def twin_order(perm: List[int], vals: List[int], fails: List[bool], k: int) -> bool:
     """
     pre: 2 <= len(perm) <= 4 and len(vals) == len(perm) and len(fails) == len(perm)
